@@ -87,6 +87,37 @@ fn encode_with<T: Message>(proto: Proto, v: &T) -> Result<(Vec<u8>, usize), Thri
     Ok((b.to_vec(), size))
 }
 
+/// the binary encoding through the LinkedBytes writers (checked / unchecked, zero-copy off / on): must be the BytesMut bytes
+fn encode_linked<T: Message>(v: &T, unchecked: bool, zc: bool) -> Result<Vec<u8>, ThriftException> {
+    use linkedbytes::LinkedBytes;
+    let concat = |lb: &mut LinkedBytes| { let mut out = Vec::new(); lb.sync_write_all_vectored(&mut out).expect("write to Vec"); out };
+    if !unchecked {
+        let mut lb = LinkedBytes::new();
+        let mut p = TBinaryProtocol::new(&mut lb, zc);
+        v.encode(&mut p)?;
+        drop(p);
+        return Ok(concat(&mut lb));
+    }
+    let mut lp = TBinaryProtocol::new((), false);
+    let size = v.size(&mut lp);
+    let mut lb = LinkedBytes::with_capacity(size + 64);
+    unsafe {
+        let l = lb.bytes_mut().len();
+        let cap = lb.bytes_mut().capacity();
+        let spare = lb.bytes_mut().as_mut_ptr().add(l);
+        std::ptr::write_bytes(spare, 0xAA, cap - l);
+        let window: &'static mut [u8] = std::slice::from_raw_parts_mut(spare, cap - l);
+        let mut p = TBinaryUnsafeOutputProtocol::new(&mut lb, window, zc);
+        v.encode(&mut p)?;
+        let idx = p.index();
+        drop(p);
+        let rem = lb.bytes_mut().capacity() - lb.bytes_mut().len();
+        if idx > rem { return Err(pilota::thrift::new_protocol_exception(pilota::thrift::ProtocolExceptionKind::Unknown, format!("unchecked index {} beyond capacity {}", idx, rem))); }
+        lb.bytes_mut().advance_mut(idx);
+    }
+    Ok(concat(&mut lb))
+}
+
 /// canonical form of a value tree: map entries and set elements sorted by their text, duplicates kept as decoded
 fn canon(v: &Val) -> Val {
     match v {
@@ -129,6 +160,15 @@ impl<'a> Action for Recode<'a> {
                 match encode_with(Proto::Bin, &v) {
                     Err(_) => "err-encode".into(),
                     Ok((b, _)) => {
+                        // every binary writer (BytesMut / LinkedBytes, checked / unchecked, zero-copy off / on) writes these bytes:
+                        // retained chunks and large payloads go through the zero-copy insertion of the LinkedBytes writers
+                        for (unchecked, zc) in [(false, false), (false, true), (true, false), (true, true)] {
+                            match encode_linked(&v, unchecked, zc) {
+                                Ok(lbv) => if lbv != b { self.o.fail("C11,C13,C02", format!("the {} LinkedBytes writer (zero-copy {}) wrote {} bytes that differ from the BytesMut writer's {} (first difference at {})",
+                                    if unchecked { "unchecked" } else { "checked" }, zc, lbv.len(), b.len(), lbv.iter().zip(b.iter()).position(|(x, y)| x != y).unwrap_or(lbv.len().min(b.len())))); },
+                                Err(e) => self.o.fail("C11,C13,C02", format!("the {} LinkedBytes writer (zero-copy {}) failed: {}", if unchecked { "unchecked" } else { "checked" }, zc, e)),
+                            }
+                        }
                         // read back by the wire type the IDL gives the declared type (a newtype / enum is not a struct on the wire)
                         let r = read_script(Proto::Bin, &b, &[ReadStep::Read(TT::of_name(ws).unwrap_or(TT::Struct))]);
                         let shown = if r.err.is_none() && r.rem == 0 { Val::of_sexp(&Sexp::parse_line(&r.items[0]).unwrap()[0]).map(|v| canon(&v).sexp()).unwrap_or_default() } else { format!("raw:{}", hex(&b)) };
